@@ -674,6 +674,9 @@ mpeg2_ts_pkt_is_valid(const mpeg2_ts_hdr_t *ts_hdr, const size_t mpeg2_ts_pkt_si
 		buf_pos += (1 + af->len); /* Move pointer */
 	}
 	/* End of Transport stream packet headers. */
+	if ((buf_pos + sizeof(mpeg2_psi_tbl_hdr_t)) >
+	    (((const uint8_t*)ts_hdr) + mpeg2_ts_pkt_size))
+		return (1); /* No room for PSI table header: nothing to check. */
 
 	/* PSI: Program specific information processing. */
 	switch (pid) {
